@@ -397,19 +397,27 @@ def lmethod(rc: RuleCtx, rule_range: Optional[str], rule_crit: Optional[str], ru
     idx_new = out.env.get(iname)
     lengths = [v for v in env.values() if isinstance(v, Rat) and v.equals(_at(x, C(-1)) - _at(x, C(0)))]
     length_v = lengths[0] if lengths else sym("length")
-    cur = anf.opaque("item", anf.opaque("call:lmethod.compute_error", x, y, i, length_v,
-                                        ev.to_rat(env["fit"]), ev.to_rat(env["cost"]), array=True, extra=("x", "y", "index", "length", "fit", "cost")), C(0), array=False)
-    # the running error: the carried variable whose new value is `cur` on the improving path
+    CALL = anf.opaque("call:lmethod.compute_error", x, y, i, length_v, ev.to_rat(env["fit"]), ev.to_rat(env["cost"]), array=True,
+                      extra=("x", "y", "index", "length", "fit", "cost"))
+    cur = anf.opaque("item", CALL, C(0), array=False)
+    # the running error: the carried variable whose new value is `cur` on the improving path - or the whole result tuple
+    # of the best candidate so far, whose first component is then the running error
     enames = [nme for nme in carried_names if nme != iname and any(isinstance(v, Rat) and v.equals(cur) for _g, v in cases_of(out.env.get(nme)))]
+    tuple_form = False
+    if not enames:
+        enames = [nme for nme in carried_names if nme != iname and any(isinstance(v, Rat) and v.equals(CALL) for _g, v in cases_of(out.env.get(nme)))]
+        tuple_form = bool(enames)
     ename = enames[0] if enames else None
     err_new = out.env.get(ename) if ename else None
     upd_ok = False
     if ename:
-        better_strict = canon_sign(cur - sym(ename), OPS["<"])
-        better_weak = canon_sign(cur - sym(ename), OPS["<="])
+        running = anf.opaque("item", sym(ename), C(0), array=False) if tuple_form else sym(ename)
+        kept = CALL if tuple_form else cur
+        better_strict = canon_sign(cur - running, OPS["<"])
+        better_weak = canon_sign(cur - running, OPS["<="])
         for better in (better_strict, better_weak):
             want_idx = mk_pw([(better, i), (g_not(better), sym(iname))])
-            want_err = mk_pw([(better, cur), (g_not(better), sym(ename))])
+            want_err = mk_pw([(better, kept), (g_not(better), sym(ename))])
             if veq(idx_new, want_idx) and veq(err_new, want_err):
                 upd_ok = True
     # return value: first component is index
@@ -424,8 +432,10 @@ def lmethod(rc: RuleCtx, rule_range: Optional[str], rule_crit: Optional[str], ru
     # ... computed by the very same call as every other candidate (same fit / cost / length), at the start index
     cur0 = None
     if isinstance(idx0, Rat):
-        cur0 = anf.opaque("item", anf.opaque("call:lmethod.compute_error", x, y, idx0, length_v, ev.to_rat(env["fit"]), ev.to_rat(env["cost"]), array=True,
-                                             extra=("x", "y", "index", "length", "fit", "cost")), C(0), array=False)
+        cur0 = anf.opaque("call:lmethod.compute_error", x, y, idx0, length_v, ev.to_rat(env["fit"]), ev.to_rat(env["cost"]), array=True,
+                          extra=("x", "y", "index", "length", "fit", "cost"))
+        if not tuple_form:
+            cur0 = anf.opaque("item", cur0, C(0), array=False)
     init_ok = isinstance(err0, Rat) and cur0 is not None and err0.equals(cur0)
     if rule_range:
         if cand_ok and ret_ok and upd_ok:
@@ -670,6 +680,10 @@ def _visited_state(rc: RuleCtx, ev, fi, loop: ast.While, env, benv, out, test, c
       V3  the tuple that is looked up is the tuple that is added, looked up in S as it was when the iteration started
       V4  test => not flag  (a raised flag ends the loop)
       V5  every component of T is an integer from a finite range fixed by the inputs"""
+    # how an iteration ends the loop: a `break`, or a carried flag the loop test requires to be false
+    broke = g_or(*out.breaks) if out.breaks else FALSE
+    if g_implies(test, broke):
+        return True, "every iteration ends the loop (an unconditional break): at most one iteration"
     adds = [e for e in out.events if e.kind == "add"]
     if not adds:
         return False, "no state is recorded in a set inside the loop body"
@@ -696,18 +710,19 @@ def _visited_state(rc: RuleCtx, ev, fi, loop: ast.While, env, benv, out, test, c
             continue
         # V4 / V2
         flags = [nme for nme in carried if g_implies(test, g_not(fr.truth(benv[nme]))) and nme in out.env]
-        if not flags:
-            last_why = "the loop test has no exit flag (a carried variable that must be false for the loop to continue)"
+        if not flags and not out.breaks:
+            last_why = "the loop has no exit besides its test (no break, no carried flag that must be false for the loop to continue)"
             continue
         done = False
-        for f in flags:
-            raised = fr.truth(out.env[f])
+        for f in (flags or [None]):
+            ended = g_or(broke, fr.truth(out.env[f])) if f is not None else broke
             for m in ms:
-                if g_implies(g_and(test, g_not(raised)), g_and(ad.guard, g_not(m))):
-                    done = (f, m)
+                # (the add may come after the break: it is then recorded under "not broken", which is all that is needed)
+                if g_implies(g_and(test, g_not(ended)), g_and(ad.guard, g_not(m))):
+                    done = (f or "break", m)
         if not done:
-            last_why = (f"an iteration can continue (exit flag {flags} not raised) although the state was already visited, or without recording the new state: "
-                        f"flag' = {_short(out.env[flags[0]], 120)}; recorded under {_short(ad.guard, 80)}")
+            last_why = (f"an iteration can continue (no break taken, exit flag {flags} not raised) although the state was already visited, or without recording the new state: "
+                        + (f"flag' = {_short(out.env[flags[0]], 120)}; " if flags else "") + f"recorded under {_short(ad.guard, 80)}")
             continue
         # V5
         comps = T.items if isinstance(T, Vec) else [T]
@@ -717,7 +732,7 @@ def _visited_state(rc: RuleCtx, ev, fi, loop: ast.While, env, benv, out, test, c
         if bad:
             last_why = f"the recorded state does not range over a finite set: {bad}"
             continue
-        return True, (f"visited-state variant: every iteration that does not raise `{done[0]}` adds a new tuple {_short(T, 90)} to `{S}` (looked up on the entry "
+        return True, (f"visited-state variant: every iteration that does not end the loop (`{done[0]}`) adds a new tuple {_short(T, 90)} to `{S}` (looked up on the entry "
                       "set, then recorded); the components are bounded integers => finitely many states")
     return False, last_why
 
